@@ -20,6 +20,14 @@ from . import mir
 MASKS = {8: 0xff, 16: 0xffff, 32: 0xffffffff, 64: 0xffffffffffffffff, 128: (1 << 128) - 1}
 
 
+class IndexFork(Exception):
+    """a known small array is indexed by a value the path does not determine: the state forks on the index"""
+
+    def __init__(self, term, n):
+        self.term = term
+        self.n = n
+
+
 class PathLimit(Exception):
     pass
 
@@ -30,6 +38,54 @@ def C(v, ty=''):
 
 def T(op, *args):
     return ('t', op, tuple(args))
+
+
+def index_key(v):
+    """the quantity an index stands for: `usize::from(b)`, `b as usize`, `e as usize` are keyed by b / discr(e), so that the
+    fork's atoms read like the `if b` / `match e` they replace"""
+    while v[0] == 't' and v[1] == 'cast' and len(v[2]) >= 1 and v[2][0][0] in ('t', 'sym'):
+        v = v[2][0]
+    return v
+
+
+def _eq_pairs(x):
+    """[(a, b), ...] such that x == 0  <=>  all a == b, for the bit-trick spellings of equality: `a ^ b` is zero iff a == b,
+    `p | q` is zero iff both are; None when x is not of that shape"""
+    if x[0] == 't' and x[1] == 'BitXor':
+        return [(x[2][0], x[2][1])]
+    if x[0] == 't' and x[1] == 'BitOr':
+        l, r = _eq_pairs(x[2][0]), _eq_pairs(x[2][1])
+        if l is not None and r is not None:
+            return l + r
+    return None
+
+
+def zero_test(l, r):
+    """`(a ^ b) == 0` is `a == b`; `(x.0 ^ c0) | (x.1 ^ c1) == 0` is `x == [c0, c1]` when the words are all the elements of x
+    in order: returns the (lhs, rhs) of the plain equality, or None"""
+    if is_int_const(r) and r[1] == 0:
+        x = l
+    elif is_int_const(l) and l[1] == 0:
+        x = r
+    else:
+        return None
+    pairs = _eq_pairs(x)
+    if not pairs:
+        return None
+    if len(pairs) == 1:
+        return pairs[0]
+    # element-wise comparison of one array-like value against constants
+    norm = []
+    for a, b in pairs:
+        if is_int_const(a) and not is_int_const(b):
+            a, b = b, a
+        if not (a[0] == 't' and a[1] == 'field' and is_int_const(b)):
+            return None
+        norm.append((a[2][0], a[2][1], b))
+    base = norm[0][0]
+    if any(n[0] != base for n in norm) or [n[1] for n in norm] != list(range(len(norm))):
+        return None
+    return base, ('agg', 'array', None, tuple(n[2] for n in norm))
 
 
 def is_const(v):
@@ -58,7 +114,7 @@ class FnInfo(dict):
 
 
 class Frame:
-    __slots__ = ('body', 'fid', 'bb', 'dest', 'ret_target', 'visits', 'call_site', 'subst')
+    __slots__ = ('body', 'fid', 'bb', 'dest', 'ret_target', 'visits', 'call_site', 'subst', 'resume')
 
     def __init__(self, body, fid, bb=0, dest=None, ret_target=None, call_site=None, subst=None):
         self.body = body
@@ -69,10 +125,12 @@ class Frame:
         self.visits = {}
         self.call_site = call_site
         self.subst = subst or {}        # type parameter name -> concrete type string, known from the inlining call site
+        self.resume = None              # (bb, statement index): where a state forked inside a block continues
 
     def copy(self):
         f = Frame(self.body, self.fid, self.bb, self.dest, self.ret_target, self.call_site, self.subst)
         f.visits = dict(self.visits)
+        f.resume = self.resume
         return f
 
     def concrete(self, tix):
@@ -137,6 +195,7 @@ class Engine:
         self.havoc_loops = havoc_loops
         self.unique_impls = unique_impls
         self.havoc_mut_args = havoc_mut_args
+        self.fork_index = 8             # largest constant table whose lookup by an undetermined index forks the state
         self.inlined = set()
         self.opaque = set()
 
@@ -157,6 +216,16 @@ class Engine:
                 cur = (cur[0], cur[1] + (('d', e['name']),))
             elif k == 'index':
                 iv = self.load(st, (('L', fr.fid, e['local']), ()))
+                if not is_int_const(iv):
+                    kn = st.known.get(index_key(iv))
+                    if kn and kn[0] == 'eq':
+                        iv = C(kn[1])
+                    elif self.fork_index:
+                        # a table lookup `TABLE[i]` with `i` a small finite quantity (a bool or a field-less enum as usize):
+                        # one successor state per element, each knowing `i == k`
+                        arr = self.load(st, cur)
+                        if arr[0] == 'agg' and arr[2] is None and 1 <= len(arr[3]) <= self.fork_index:
+                            raise IndexFork(iv, len(arr[3]))
                 if is_int_const(iv):
                     cur = (cur[0], cur[1] + (('f', iv[1], None),))
                 else:
@@ -302,6 +371,16 @@ class Engine:
                 for v in adt['variants']:
                     if v.get('discr', v['index']) == val:
                         return ('agg', t['s'], v['name'], tuple(C(('b', raw.hex()), 'payload') for _ in v['fields']))
+            if adt and adt['kind'] == 'enum' and 'niche_off' in adt:
+                # niche-encoded tag (the tag lives in invalid values of a payload field of the untagged variant)
+                to, tsz = int(adt['niche_off']), int(adt['niche_size'])
+                val = int.from_bytes(raw[to:to + tsz], 'little')
+                lo, hi = int(adt['niche_lo']), int(adt['niche_hi'])
+                rel = (val - int(adt['niche_start'])) % (1 << (8 * tsz))
+                vi = lo + rel if rel <= hi - lo else int(adt['niche_untagged'])
+                for v in adt['variants']:
+                    if v['index'] == vi:
+                        return ('agg', t['s'], v['name'], tuple(C(('b', raw.hex()), 'payload') for _ in v['fields']))
             if adt and adt['kind'] == 'struct' and 'size' in adt:
                 fields = []
                 ok = True
@@ -415,6 +494,10 @@ class Engine:
                 if with_of:
                     return ('agg', 'tuple', None, (C(w, lt), C(int(w != res), 'bool')))
                 return C(w, lt)
+        if base in ('Eq', 'Ne'):
+            z = zero_test(l, r)
+            if z is not None:
+                return T(base, z[0], z[1])
         v = T(base, l, r)
         if with_of:
             return ('agg', 'tuple', None, (v, C(0, 'bool')))
@@ -639,17 +722,38 @@ class Engine:
             bb = fr.bb
             blk = body.blocks[bb]
             st.trace.append((fr.fid, body.path, bb))
-            for s in blk['stmts']:
+            first = 0
+            if fr.resume is not None:
+                if fr.resume[0] == bb:
+                    first = fr.resume[1]
+                fr.resume = None
+            forked = False
+            for si, s in enumerate(blk['stmts']):
+                if si < first:
+                    continue
                 if s['k'] == 'assign':
                     dest_ty = body.tystr(s['p']['ty'])
-                    v = self.rvalue(st, fr, s['r'], dest_ty)
-                    self.write(st, self.resolve_place(st, fr, s['p']), v)
+                    try:
+                        v = self.rvalue(st, fr, s['r'], dest_ty)
+                        pl = self.resolve_place(st, fr, s['p'])
+                    except IndexFork as ix:
+                        site = (body.path, bb, body.where(bb))
+                        for kx in range(ix.n):
+                            s2 = st.copy()
+                            if self.add_cond(s2, index_key(ix.term), '==', kx, site):
+                                s2.frames[-1].resume = (bb, si)
+                                work.append(s2)
+                        forked = True
+                        break
+                    self.write(st, pl, v)
                 elif s['k'] == 'setdiscr':
                     pass
                 elif s['k'] == 'dead':
                     key = (('L', fr.fid, s['l']), ())
                     for k in [k for k in st.store if k[0] == key[0]]:
                         del st.store[k]
+            if forked:
+                return
             t = blk['term']
             k = t['k']
             site = (body.path, bb, body.where(bb))
